@@ -4,7 +4,8 @@ differential against the bare connection).
 Scenarios come from the C02 templates (valid responses of every operation family, CIM errors,
 parse errors, invalid UTF-8, HTTP errors, transport exceptions). For every scenario the operation is
 run once on a bare connection and once under every observer configuration; outcome, raw
-request/reply, statistics and password hygiene are compared.
+request/reply, the requests as sent (header set and body), statistics and password hygiene are
+compared.
 """
 import base64
 import io
@@ -125,10 +126,14 @@ def _run(scn, cfg):
     resp = R.apply(dev, tp['bodies'][0], tp['headers'], tps, (op, tname)) if dev else \
         (200, 'OK', dict(tp['headers']), tp['bodies'][0])
     later = list(tp['bodies'][1:])
-    sent, replies = [], []
+    sent, replies, wire = [], [], []
 
     def handler(request):
         sent.append(transport.request_body(request))
+        # what actually goes on the wire: header set and body of every request
+        wire.append([sorted((str(k), v.decode('latin-1') if isinstance(v, bytes) else str(v))
+                            for k, v in request.headers.items()),
+                     transport.request_body(request).decode('utf-8', 'replace')])
         if len(sent) == 1:
             if isinstance(resp, BaseException):
                 raise resp
@@ -187,7 +192,7 @@ def _run(scn, cfg):
             outcome = ['raised', type(exc).__name__, _args(exc)]
         except Exception as exc:   # noqa: an escaping exception is compared like any other outcome
             outcome = ['escaped', type(exc).__name__, repr(exc)[:200]]
-        res = dict(outcome=outcome)
+        res = dict(outcome=outcome, wire=wire)
         raw_req = conn.last_raw_request
         if isinstance(raw_req, str):
             raw_req = raw_req.encode('utf-8')
@@ -285,6 +290,20 @@ def compare(scn, cfg, acc):
                                            o['outcome'][0] if o['outcome'][0] == 'ok' else o['outcome'][1])
         acc.violation(dict(check='observers', what=what, observer=_observer_class(cfg, b, o, scn)),
                       case, b['outcome'][:3], o['outcome'][:3])
+    if o['wire'] != b['wire']:
+        # an observer must not change what is sent either (the server's answer depends on it)
+        what = 'request-count'
+        for (bh, bb), (oh, ob) in zip(b['wire'], o['wire']):
+            if bh != oh:
+                names = sorted(set(k for k, _ in set(map(tuple, bh)) ^ set(map(tuple, oh))))
+                what = 'header:' + ','.join(names)
+                break
+            if bb != ob:
+                what = 'body'
+                break
+        acc.violation(dict(check='wire', what='request-differs:' + what,
+                           observer=_observer_class(cfg, b, o, scn, field='wire')),
+                      case, str(b['wire'])[:300], str(o['wire'])[:300])
     if not b['raw_request_ok'] or not b['raw_reply_ok']:
         acc.violation(dict(check='raw-data', what='bare:last_raw_request/reply differ from the bytes exchanged'),
                       dict(check='observers', scenario=scn, config=None), True, (b['raw_request_ok'], b['raw_reply_ok']))
@@ -309,7 +328,7 @@ def compare(scn, cfg, acc):
             acc.violation(dict(check='password', what='password-visible', where=where), case, 'not present', sec)
 
 
-def _observer_class(cfg, b, o, scn):
+def _observer_class(cfg, b, o, scn, field='outcome'):
     """which single observer is responsible: re-run with each observer alone"""
     singles = [('logger', dict(logger=cfg['logger'], tcr='off', stats=False, debug=False)),
                ('tcr', dict(logger=None, tcr=cfg['tcr'], stats=False, debug=False)),
@@ -320,7 +339,7 @@ def _observer_class(cfg, b, o, scn):
         if name == 'logger' and not cfg['logger'] or name == 'tcr' and cfg['tcr'] == 'off' or \
                 name == 'stats' and not cfg['stats'] or name == 'debug' and not cfg['debug']:
             continue
-        if run(scn, c)['outcome'] != b['outcome']:
+        if run(scn, c)[field] != b[field]:
             blamed.append(name)
     if blamed == ['logger']:
         lg = cfg['logger']
